@@ -27,6 +27,8 @@ FINDERS = {}
 def finder_of(name):
     """One Finder instance per name and process: a client keeps its Finder and may hold several result generators of it."""
     from spil import FindInList, FindInPaths, FindInAll
+    if name == "list_extrap_new":
+        return FindInList(list(CTX["leaves"]), do_extrapolate=True)       # (not kept: a new one per call)
     if name in FINDERS:
         return FINDERS[name]
     if name == "list":
@@ -46,6 +48,8 @@ def exec_call(spec):
     from spil import Sid
     try:
         f = spec["f"]
+        for pre in spec.get("pre", ()):
+            exec_call(pre)           # (an equivalent spelling: "the same call, not the first of its kind in this process")
         if f == "Sid":
             args = list(spec.get("args", []))
             kw = dict(spec.get("kw", {}))
